@@ -2,7 +2,7 @@
 proof: Props/C05.v (engine skeleton for every algorithm: HiddenZero preserved / established by a pass / broken only by mutations
 below a clean hidden node; hidden blindness; grid placement cannot see hidden children);
 K: (a) grid containers with display:none / absolute children carrying definite lines vs Model/PlacementRun.v (`vh c05 cases`:
-the C08 protocol and runner with a child mix of 40% in-flow / 30% hidden / 30% absolute), (b) the engine correspondence shared
+the C08 protocol and runner with half of the children display:none; the hidden + absolute mix is in C08's own K), (b) the engine correspondence shared
 with C01 (dirty flags of histories vs Model/Engine.v incl. hide, + trace validation of WF / H1, premises of
 C05_pass_establishes_hidden_zero);
 search: metamorphic oracle on FRESH trees through the public API (`vh c05 oracle`): every node of a display:none region has an
@@ -126,8 +126,8 @@ def run(rep, tier, seed, replay=None):
             if r2 != a:
                 rep.add_violation('grid container: reported placement changes when the display:none children lose their grid lines -- %s' % P.describe(c),
                                   {'case': c, 'impl': a, 'impl_neutralised': r2, 'cmd': 'vh c08 one %s' % ' '.join(str(x) for x in c)})
-    rep.cov['rule'] = ('K(a): `vh c05 cases`: grid container, explicit 0-4 x 0-4 fixed tracks, 4 auto-flow modes, 1-6 leaf children, 40% in flow / 30% '
-                       'display:none / 30% absolute, hidden and absolute ones with a placement that is non-auto with p=0.8 per edge (lines -6..6 incl 0, '
+    rep.cov['rule'] = ('K(a): `vh c05 cases`: grid container, explicit 0-4 x 0-4 fixed tracks, 4 auto-flow modes, 1-6 leaf children, half of them '
+                       'display:none, these with a placement that is non-auto with p=0.8 per edge (lines -6..6 incl 0, '
                        'spans 1-4): reported track counts and item areas (detailed_layout_info) vs Model.Placement.grid_placement_run; distinct_nontrivial = '
                        'distinct cases with a display:none child that has a non-auto placement.  K(b): engine histories (see C01).  search: `vh c05 oracle`: '
                        'treegen trees (<= 14 nodes, depth <= 4, flex/grid/block, p_hidden 18%, a hidden node forced if none; 1/64 with a hidden ROOT), the '
